@@ -45,6 +45,7 @@ func Run(tier string, seed int64, outDir string) *common.Meta {
 	runShadowed(meta, seed, outDir)
 	runSynthClaims(meta, outDir)
 	runCaseOrderGeneric(meta, outDir)
+	runCaseOrderLocal(meta, seed, outDir)
 	meta.Rule = "distinct_nontrivial = number of distinct generated expressions / type switches on which at least one of the claim-producing checkers fired (each compared with the model matcher in Coq and executed with instrumentation)"
 	return meta
 }
@@ -192,19 +193,38 @@ func genClaimExpr(g *exprgen.G, r interface{ Intn(int) int }) string {
 			e = x + "[len(" + y + ")-1] == " + x + "[0]"
 		}
 	case n < 92: // dupSubExpr
-		op := pick("==", "!=", "<", ">", "<=", ">=", "&&", "||", "-", "/", "%", "+")
+		// every operator the checker's table names, on every operand type it applies to
+		op := pick("==", "!=", "<", ">", "<=", ">=", "&&", "||", "-", "/", "%", "+", "|", "&", "^", "&^")
 		var x string
+		isInt := false
 		switch r.Intn(4) {
 		case 0:
-			x = floatX()
+			x = pick(floatX(), "p + q", "q + p", "p - q")
 		case 1:
-			x = pick("s", "t", "fs()", "s + t")
+			x = pick("s", "t", "fs()", "s + t", "t + s", "s + t + s")
 		default:
-			x = intX()
+			x = pick(intX(), intX(), "a + b", "b * c", "a | b", "a & c", "a ^ b", "a - b", "a == b")
+			isInt = true
+		}
+		if !isInt && (op == "|" || op == "&" || op == "^" || op == "&^") {
+			op = pick("==", "!=", "<", ">=")
+		}
+		if x == "a == b" {
+			op = pick("==", "!=", "&&", "||")
 		}
 		y := x
-		if r.Intn(7) == 0 {
+		switch r.Intn(7) {
+		case 0:
 			y = pick("a", "b", "p", "s")
+		case 1, 2:
+			// operands that are NOT the same expression but look alike: swapped operands of the top-level
+			// operator, a re-association, another spelling of a literal
+			if i := strings.LastIndex(x, " "); i > 0 && strings.Count(x, " ") == 2 && !strings.ContainsAny(x, "()") {
+				f := strings.Fields(x)
+				y = f[2] + " " + f[1] + " " + f[0]
+			} else if x == "s + t + s" {
+				y = pick("s + (t + s)", "t + s + s")
+			}
 		}
 		switch op {
 		case "&&", "||":
@@ -220,7 +240,7 @@ func genClaimExpr(g *exprgen.G, r interface{ Intn(int) int }) string {
 				return s
 			}
 			e = wrap(b) + " " + op + " " + wrap(b2)
-		case "-", "/", "%", "+":
+		case "-", "/", "%", "+", "|", "&", "^", "&^":
 			if (op == "%" || op == "/") && (strings.ContainsAny(x, "pqf") || strings.ContainsAny(y, "pqst")) {
 				op = "-"
 			}
@@ -578,7 +598,7 @@ var mutatingRe = regexp.MustCompile(`refill\(\)|bumpG\(\)|func\(\) bool`)
 
 // findFlagged locates the expression a diagnostic is about: the outermost node of the right kind starting at pos.
 func findFlagged(l *exprgen.Linted, root ast.Expr, pos token.Pos, checker, msg string) ast.Expr {
-	var found ast.Expr
+	var found, dupFallback ast.Expr
 	ast.Inspect(root, func(n ast.Node) bool {
 		if found != nil || n == nil {
 			return false
@@ -613,14 +633,23 @@ func findFlagged(l *exprgen.Linted, root ast.Expr, pos token.Pos, checker, msg s
 						}
 					}
 				case "dupSubExpr":
-					if strings.Contains(msg, "`"+b.Op.String()+"`") && l.Text(b.X) == l.Text(b.Y) {
-						found = e
+					// the binary expression with the operator the message names; several may start at pos
+					// (`a - a == a`): prefer the one whose operands are textually identical
+					if strings.Contains(msg, "`"+b.Op.String()+"`") {
+						if l.Text(b.X) == l.Text(b.Y) {
+							found = e
+						} else if dupFallback == nil {
+							dupFallback = e
+						}
 					}
 				}
 			}
 		}
 		return found == nil
 	})
+	if found == nil {
+		return dupFallback
+	}
 	return found
 }
 
